@@ -106,6 +106,10 @@ experiments:
     executions: [E1]
     suites: [S1, S2]
     reporting: {codespeed: {project: p, url: "http://localhost:1/"}}
+  X3:
+    action: profile
+    executions: [E2]
+    suites: [S1]
 """
 
 WRONG = [None, [], {}, "str", 5, -1, 1.5, True, ["a", "b"], {"k": "v"}, "", "5!", "!", "0x10",
@@ -289,6 +293,12 @@ def run(chk):
                 continue
             docs.append(("point:%s=%r@%s" % (w[0], w[1] if len(w) > 1 else None, "/".join(map(str, path))),
                          yaml.safe_dump(doc, default_flow_style=False)))
+            if len(path) == 1:
+                # a top-level setting is seen by every experiment: each experiment on its own as well (the first one to be
+                # compiled would otherwise hide what the others do with the setting)
+                for exp in ("X2", "X3"):
+                    docs.append(("point:%s=%r@%s:only:%s" % (w[0], w[1] if len(w) > 1 else None, "/".join(map(str, path)), exp),
+                                 yaml.safe_dump(doc, default_flow_style=False)))
     for i in range(ndocs):
         doc, label = mutate_doc(rng, base)
         if rng.random() < 0.3:
@@ -310,8 +320,10 @@ def run(chk):
                 argv.append("all")
             elif label.startswith("odd-name:") and label.endswith(":nope"):
                 argv.append("nope")
+            elif label.startswith("point:") and ":only:" in label:
+                argv.append(label.rsplit(":", 1)[1])
             elif i % 7 == 3 and not label.startswith("valid"):
-                argv.append(rng.choice(["X1", "X2", "all", "nope"]))
+                argv.append(rng.choice(["X1", "X2", "X3", "all", "nope"]))
             rc, out = run_main(argv)
             case = dict(mutation=label, document=text if len(text) < 2500 else text[:2500], argv=argv)
             if isinstance(rc, str) or "Traceback" in out:
